@@ -73,6 +73,18 @@ KERNELS = {
     "ordered_inner_map_result_size": {"owner": "C19"},
     "ordered_inner_map_left_unique": {"owner": "C19", "mutated": [2, 3]},      # returns None
     "ordered_inner_map": {"owner": "C19", "mutated": [2, 3]},                  # returns None
+    # KT4C: the two `_old` kernels of the legacy streamed forms of Session.ordered_merge_left / _right
+    "generate_ordered_map_to_left_right_unique_partial_old": {"owner": "C19", "mutated": [3]},   # (i, j, unmapped), left_to_right
+    "ordered_map_valid_partial_old": {"owner": "C19", "mutated": [3]},                           # (i, val), result
+    # a generator: the translation returns the lists of the yielded components (starts, ends); `generator` = their number
+    "chunks": {"owner": "C19", "generator": 2},
+    # kernels WITHOUT a caller in the library (dead code: only tests/ call them): translated and validated differentially under
+    # C10 only; no theorem about them is an obligation of any property (an edit to dead code raises no semantic alarm)
+    "ordered_left_map_result_size": {"owner": "C10"},
+    "ordered_outer_map_result_size_both_unique": {"owner": "C10"},
+    "ordered_inner_map_left_unique_partial": {"owner": "C10", "mutated": [4, 5]},
+    "ordered_get_last_as_filter": {"owner": "C10"},
+    "streaming_sort_partial": {"owner": "C10", "mutated": [0, 4, 5]},
 }
 C08_NOSRC = ("apply_spans_count", "apply_spans_index_of_first", "apply_spans_index_of_last")
 C08_REDUCE = ("apply_spans_count", "apply_spans_first", "apply_spans_last", "apply_spans_max", "apply_spans_min",
@@ -1105,6 +1117,172 @@ DERIVE = {"C14": derive_c14, "C08": derive_c08, "C09": derive_c09, "C04": derive
 RANDOM = {"C14": random_c14, "C06": random_c06, "C16": random_c16, "C08": random_c08, "C09": random_c09, "C04": random_c04, "C03": random_c03, "C17": random_c17, "C19": random_c19}
 
 
+# ----------------------------------------------------------------------------------------------------------------------
+# KT4C: the `_old` kernels of C19, called as the legacy drivers call them (views of the current chunks, a scratch array of
+# `chunksize` slots) and with malformed arguments (scratch array too short, empty map chunk, entries outside the data view)
+# ----------------------------------------------------------------------------------------------------------------------
+
+def lru_old_safe(left, right, cap):
+    """every subscript of generate_ordered_map_to_left_right_unique_partial_old is in range: it stores at every i it passes"""
+    i = j = 0
+    while i < len(left) and j < len(right):
+        if left[i] > right[j]:
+            j += 1
+        else:
+            if i >= cap:
+                return False
+            i += 1
+    return True
+
+
+def map_old_safe(d, nd, m, cap, inv):
+    """every subscript of ordered_map_valid_partial_old is in range (a negative one within -len..-1 wraps, still in range)"""
+    i = 0
+    while True:
+        if i >= len(m):
+            return False                     # `map_field[i]` of an empty chunk
+        v = m[i]
+        if v != inv:
+            if v >= d + nd:
+                return True
+            if not _inr(v - d, nd) or not _inr(i, cap):
+                return False
+        i += 1
+        if i >= len(m):
+            return True
+
+
+def random_c19_old(rng, n_cases):
+    out = []
+    I = lambda v: {"int": int(v)}                     # noqa: E731,E741
+    for t in range(n_cases):
+        inv = rng.choice([-1, 2147483647, 4611686018427387904])
+        if t % 2 == 0:
+            nl, nr = rng.randrange(0, 12), rng.randrange(0, 12)
+            left, right = _sorted_keys(rng, nl, False), _sorted_keys(rng, nr, True)
+            if rng.random() < 0.1:
+                right = [rng.randrange(0, 6) for _ in range(nr)]         # not sorted / not unique: subscripts still guarded
+            cap = nl + rng.randrange(0, 3) if rng.random() < 0.85 else rng.randrange(0, nl + 1)
+            out.append(gcase("generate_ordered_map_to_left_right_unique_partial_old",
+                             [I(rng.choice([0, 0, 4, 1000])), arr(left), arr(right), arr([7] * cap), I(inv)],
+                             unsafe=not lru_old_safe(left, right, cap), fuel=nl + nr + 1, _from="random"))
+            continue
+        d = rng.choice([0, 0, 3, 20])
+        nd = rng.choice([0, 1, 2, 5, rng.randrange(1, 12)])
+        n = rng.choice([0, 1, 2, 3, rng.randrange(1, 12)])
+        data = [rng.randrange(-50, 1000) for _ in range(nd)]
+        what = rng.randrange(10)
+        lo, hi = (d, d + nd + 2) if what < 8 else (d - 3, d + nd + 2)     # entries beyond the view end the call; below it: malformed
+        m = sorted(rng.randrange(lo, max(hi, lo + 1)) for _ in range(n))
+        m = [inv if rng.random() < 0.3 else k for k in m]
+        cap = n + rng.randrange(0, 3) if rng.random() < 0.85 else rng.randrange(0, n + 1)
+        out.append(gcase("ordered_map_valid_partial_old", [I(d), arr(data), arr(m), arr([0] * cap), I(inv)],
+                         unsafe=not map_old_safe(d, nd, m, cap, inv), fuel=n + 1, _from="random"))
+    return out
+
+
+def random_c19_chunks(rng, n_cases):
+    """`chunks(length, chunksize)` for chunksize ≥ 1 (any length, negative included) and for a chunksize ≤ 0 with a length ≤ 0
+    (a chunksize ≤ 0 with a positive length never ends: not executed)"""
+    out = []
+    for t in range(n_cases):
+        n = rng.choice([0, 1, 2, 7, rng.randrange(0, 60), rng.randrange(-3, 1)])
+        cs = rng.choice([1, 1, 2, 3, 4, rng.randrange(1, 70), 1 << 20]) if n > 0 or rng.random() < 0.7 else rng.randrange(-3, 1)
+        out.append(gcase("chunks", [{"int": n}, {"int": cs}], fuel=max(n, 0) + 1, _from="random"))
+    return out
+
+
+def _random_c19_with_old(rng, n_cases):
+    """the share of the two `_old` kernels and of `chunks` among the seeded direct calls of C19 (≥ 54 each per quick run)"""
+    nk = sum(1 for v in KERNELS.values() if v["owner"] == "C19")
+    n_old = 2 * n_cases // max(nk, 3)
+    n_ch = n_cases // max(nk, 3)
+    return random_c19(rng, n_cases - n_old - n_ch) + random_c19_old(rng, n_old) + random_c19_chunks(rng, n_ch)
+
+
+RANDOM["C19"] = _random_c19_with_old
+
+
+# ----------------------------------------------------------------------------------------------------------------------
+# KT4C: the five kernels without a caller in the library, under C10 (translator validation only)
+# ----------------------------------------------------------------------------------------------------------------------
+
+def stream_sort_safe(pos, lens, vals, idx, capv, capi):
+    """every subscript of streaming_sort_partial is in range (a negative one within -len..-1 wraps, still in range)"""
+    pos = list(pos)
+    k = len(pos)
+    dest, total = 0, sum(lens)
+    while dest < total:
+        if k == 0 or len(lens) == 0:
+            return False
+        if pos[0] == lens[0]:
+            return True
+        if not vals or not _inr(pos[0], len(vals[0])):
+            return False
+        mv, mi = vals[0][pos[0]], 0
+        for i in range(1, k):
+            if i >= len(lens):
+                return False
+            if pos[i] == lens[i]:
+                return True
+            if i >= len(vals) or not _inr(pos[i], len(vals[i])):
+                return False
+            if vals[i][pos[i]] < mv:
+                mv, mi = vals[i][pos[i]], i
+        if mi >= len(idx) or not _inr(pos[mi], len(idx[mi])) or not _inr(dest, capi) or not _inr(dest, capv):
+            return False
+        dest += 1
+        pos[mi] += 1
+    return True
+
+
+def random_c10(rng, n_cases):
+    out = []
+    I = lambda v: {"int": int(v)}                     # noqa: E731,E741
+    for t in range(n_cases):
+        nl, nr = rng.randrange(0, 12), rng.randrange(0, 12)
+        what = t % 5
+        if what in (0, 1):
+            # every subscript is guarded by a length test: no call is `_unsafe`, sorted or not
+            left, right = _sorted_keys(rng, nl, what == 1), _sorted_keys(rng, nr, what == 1)
+            if rng.random() < 0.15:
+                left = [rng.randrange(-3, 4) for _ in range(nl)]
+            k = "ordered_left_map_result_size" if what == 0 else "ordered_outer_map_result_size_both_unique"
+            out.append(gcase(k, [arr(left), arr(right)], fuel=nl + nr + 1, _from="random"))
+        elif what == 2:
+            left, right = _sorted_keys(rng, nl, True), _sorted_keys(rng, nr, False)
+            if rng.random() < 0.1:
+                left = [rng.randrange(0, 4) for _ in range(nl)]
+            cl = rng.choice([0, 1, 2, 4, 16])
+            cr = cl if rng.random() < 0.85 else rng.randrange(0, cl + 3)
+            out.append(gcase("ordered_inner_map_left_unique_partial",
+                             [I(rng.randrange(0, 50)), I(rng.randrange(0, 50)), arr(left), arr(right), arr([7] * cl), arr([8] * cr)],
+                             unsafe=cr < cl, fuel=nl + nr + 1, _from="random"))
+        elif what == 3:
+            n = rng.choice([0, 1, 2, 3, rng.randrange(1, 15)])
+            f = sorted(rng.randrange(0, 5) for _ in range(n)) if rng.random() < 0.8 else [rng.randrange(-3, 4) for _ in range(n)]
+            out.append(gcase("ordered_get_last_as_filter", [arr(f)], unsafe=n == 0, _from="random"))   # `result[-1]` of an empty array
+        else:
+            k = rng.choice([1, 2, 2, 3])
+            n = rng.choice([1, 2, 3, rng.randrange(1, 7)])
+            vals = [sorted(rng.randrange(-5, 20) for _ in range(n)) for _ in range(k)]
+            idx = [[100 * c + j for j in range(n)] for c in range(k)]
+            lens = [n if rng.random() < 0.7 else rng.randrange(0, n + 1) for _ in range(k)]
+            pos = [0 if rng.random() < 0.6 else rng.randrange(0, ln + 1) for ln in lens]
+            cap = sum(lens) if rng.random() < 0.85 else rng.randrange(0, sum(lens) + 1)
+            bad = rng.randrange(12)
+            if bad == 0:
+                lens = lens[:-1]
+            elif bad == 1:
+                lens = [ln + 2 for ln in lens]                # lengths beyond the chunks
+            out.append(gcase("streaming_sort_partial", [arr(pos), arr(lens), arr2(vals), arr2(idx), arr([0] * cap), arr([0] * cap)],
+                             unsafe=not stream_sort_safe(pos, lens, vals, idx, cap, cap), fuel=k * n + sum(lens) + 2, _from="random"))
+    return out
+
+
+RANDOM["C10"] = random_c10
+
+
 def extra_cases(owner, cases, tier, rng):
     owner = owner.upper()
     nd = QUICK_DERIVED if tier == "quick" else 20 * QUICK_DERIVED
@@ -1187,6 +1365,12 @@ def impl(case):
     fn = getattr(ops, case["kernel"])
     args = [_decode(np, a) for a in case["args"]]
     ret = fn(*args)
+    ncomp = KERNELS.get(case["kernel"], {}).get("generator")
+    if ncomp:
+        # a generator: exhaust it; the translation returns one list per yielded component
+        items = [x if isinstance(x, tuple) else (x,) for x in ret]
+        cols = [[int(x[j]) for x in items] for j in range(ncomp)]
+        return {"val": cols[0] if ncomp == 1 else cols}
     # a kernel without `return` yields None: its result is what it stored into its array parameters
     parts = [] if ret is None else [_canon(np, x) for x in ret] if isinstance(ret, tuple) else [_canon(np, ret)]
     mutated = KERNELS.get(case["kernel"], {}).get("mutated") or []
@@ -1243,8 +1427,9 @@ def select_for_mode(case, mode, tier):
 # hooking into the owner's harness
 # ----------------------------------------------------------------------------------------------------------------------
 
-def install(g, owner):
-    """wrap the harness functions in the module namespace `g` so that `gen_kernel` cases are added and routed here"""
+def install(g, owner, gen_module=True):
+    """wrap the harness functions in the module namespace `g` so that `gen_kernel` cases are added and routed here
+    (`gen_module=False`: the owner has no `Props/<owner>Gen.lean` — its kernels are validated differentially only)"""
     def is_gen(case):
         return isinstance(case, dict) and case.get("op") == "gen_kernel"
 
@@ -1287,5 +1472,5 @@ def install(g, owner):
         g["compare"] = cmp
     mods = g.get("LEAN_MODULES")
     extra = f"Exetera.Props.{owner.upper()}Gen"
-    if isinstance(mods, list) and extra not in mods:
+    if gen_module and isinstance(mods, list) and extra not in mods:
         mods.append(extra)
